@@ -29,6 +29,7 @@ GEN_NAME = "gen" if os.path.realpath(REPO) == "/repo" else "gen_other"
 GEN = os.path.join(COQ, GEN_NAME)
 PY = "/venv/bin/python"
 NPROC = int(os.environ.get("VERIF_NPROC", "16"))
+MAX_REPORTED = 12
 
 FORBIDDEN = re.compile(
     r"\b(Admitted|admit|Axiom|Axioms|Parameter|Parameters|Conjecture|Conjectures)\b"
@@ -515,7 +516,14 @@ class Ctx:
     return path
 
   def violation(self, kind, obj, no_input=False):
-    """kind: impl-violates | model-violates | correspondence-broken | proof-broken."""
+    """kind: impl-violates | model-violates | correspondence-broken | proof-broken.
+    At most MAX_REPORTED violations are written out per run (one change usually fails many cases);
+    the rest are only counted."""
+    if len(self.violations) >= MAX_REPORTED:
+      self.violations.append((None, no_input))
+      if len(self.violations) == MAX_REPORTED + 1:
+        print("(further violations of this run are counted in the evidence file, not listed)", flush=True)
+      return
     path = self._write_replay(kind, obj)
     self.violations.append((path, no_input))
     line = "VIOLATION property=%s replay=%s" % (self.pid, path)
